@@ -25,9 +25,7 @@ theorem good_tau (s s' : St) (hi : Good s = true) (h : s' ∈ tau s) : Good s' =
   · simp at hB
     rcases hB with ⟨⟨hc, hn⟩, rfl⟩
     close_inv
-  · cases upc <;> simp at hC
-    · rcases hC with rfl | rfl <;> close_inv
-    · rcases hC with rfl | rfl <;> close_inv
+  · cases upc <;> simp at hC <;> (first | (rcases hC with rfl | rfl) | subst hC) <;> close_inv
   · cases mpc <;> (try (rename_i a; cases a)) <;> cases sess <;> cases ca <;> cases auto <;> simp at hD <;>
       (first | (rcases hD with rfl | rfl | rfl) | (rcases hD with rfl | rfl) | (subst hD)) <;> close_inv
 
@@ -39,11 +37,12 @@ theorem good_obs (s s' : St) (e : Ev) (hi : Good s = true) (h : s' ∈ obs s e) 
     cases mpc <;> cases e <;> simp at hA <;>
       (first | (rcases hA with ⟨_, rfl⟩) | (subst hA)) <;> close_inv
   · cases e with
-    | uConnect => simp at hB; rcases hB with ⟨rfl, rfl⟩; close_inv
+    | uConnect => simp at hB; rcases hB with ⟨h1 | ⟨⟨h1, h2⟩, h3⟩, rfl⟩ <;> subst_vars <;> close_inv
     | uConnectOk => simp at hB; rcases hB with ⟨rfl, rfl⟩; close_inv
-    | uConnectErr => simp at hB; rcases hB with ⟨h1 | h1, rfl⟩ <;> subst h1 <;> close_inv
+    | uConnectErr =>
+      cases upc <;> cases cl <;> simp at hB <;> subst hB <;> close_inv
     | uClose => simp at hB; rcases hB with ⟨⟨rfl, rfl⟩, rfl⟩; close_inv
-    | uCloseEnd => simp at hB; rcases hB with ⟨rfl, rfl⟩; close_inv
+    | uCloseEnd => simp at hB; rcases hB with ⟨⟨rfl, rfl⟩, rfl⟩; close_inv
     | dial =>
       simp at hB
       rcases hB with ⟨rfl, rfl⟩ | ⟨⟨rfl, rfl⟩, rfl⟩ <;> close_inv
